@@ -25,7 +25,7 @@ type RaceCase struct {
 }
 
 func genRace(t *rapid.T) RaceCase {
-	c := RaceCase{Subscribers: rapid.IntRange(2, 8).Draw(t, "subs"), Publishers: rapid.IntRange(0, 3).Draw(t, "pubs"), Rounds: rapid.IntRange(1, 4).Draw(t, "rounds")}
+	c := RaceCase{Subscribers: rapid.IntRange(2, 12).Draw(t, "subs"), Publishers: rapid.IntRange(0, 3).Draw(t, "pubs"), Rounds: rapid.IntRange(2, 6).Draw(t, "rounds")}
 	for i := 0; i < c.Subscribers; i++ {
 		if rapid.IntRange(0, 3).Draw(t, "before") == 0 {
 			c.Before = append(c.Before, i)
